@@ -147,7 +147,10 @@ func (s *objectStore) flush(db *DB) (err error) {
 }
 
 type DB struct {
-	l       sync.RWMutex
+	l sync.RWMutex
+	// sl serializes access to schemas: a schema is loaded lazily
+	// by the first caller, which may only hold the read lock
+	sl      sync.Mutex
 	ctx     context.Context
 	cancel  context.CancelFunc
 	root    string
@@ -270,6 +273,9 @@ func (db *DB) safeCountPendingAsyncW(of Object) (n int) {
 
 func (db *DB) schema(of Object) (s *Schema, err error) {
 	var ok bool
+
+	db.sl.Lock()
+	defer db.sl.Unlock()
 
 	if s, ok = db.schemas[stype(of)]; ok {
 		db.startAsyncWritesRoutine(s)
